@@ -57,7 +57,7 @@ Init ==
   /\ n = 0
   /\ \E q \in QueryNames : \E sd \in BOOLEAN :
        /\ (q # "Query" => sd)
-       /\ S = [desc |-> "", sd |-> sd, query |-> q, mutation |-> "", subscription |-> "",
+       /\ S = [desc |-> "", sd |-> sd, stags |-> <<>>, xroots |-> FALSE, query |-> q, mutation |-> "", subscription |-> "",
                types |-> <<[TypeDef(q, "OBJECT") EXCEPT !.fields = <<Field("id", Ref("ID", <<"N">>))>>]>>,
                dirs |-> <<>>]
 
@@ -183,7 +183,8 @@ DepEnum(e, v, rc) ==
 \* ------------------------------------------------------------------ directives
 \* every place where a custom directive is applied, as <<where..., tags>>
 AllTags ==
-  UNION {{<<"t", S.types[i].name, S.types[i].tags>>}
+  {<<"s", "$schema", S.stags>>, <<"x", "$schema", IF S.xroots THEN <<"x">> ELSE <<>> >>} \cup
+  UNION {{<<"t", S.types[i].name, S.types[i].tags>>, <<"x", S.types[i].name, SubSeq(<<"x", "x", "x", "x", "x", "x", "x", "x">>, 1, S.types[i].ext)>>}
            \cup {<<"f", S.types[i].name, S.types[i].fields[j].name, S.types[i].fields[j].tags>> : j \in DOMAIN S.types[i].fields}
            \cup UNION {{<<"a", S.types[i].name, S.types[i].fields[j].name, S.types[i].fields[j].args[a].name, S.types[i].fields[j].args[a].tags>> :
                           a \in DOMAIN S.types[i].fields[j].args} : j \in DOMAIN S.types[i].fields}
@@ -234,6 +235,11 @@ TagInput(tn, x, dn) ==
   /\ LET iv == Find(T(tn).inputs, x) IN
      /\ CanApply(dn, "INPUT_FIELD_DEFINITION", iv.tags)
      /\ UpdType(tn, [T(tn) EXCEPT !.inputs = Replace(T(tn).inputs, x, [iv EXCEPT !.tags = Append(iv.tags, dn)])])
+TagSchema(dn) == S.sd /\ CanApply(dn, "SCHEMA", S.stags) /\ S' = [S EXCEPT !.stags = Append(S.stags, dn)]
+\* Type extensions: one more trailing element of the type (a scalar: its directives) is declared in `extend <kind> T ..`;
+\* the mutation / subscription roots are declared in `extend schema {..}`.  The type system stays the same (merged).
+Extend(tn) == On("extensions") /\ T(tn).ext + 1 < ExtCount(T(tn)) /\ UpdType(tn, [T(tn) EXCEPT !.ext = T(tn).ext + 1])
+ExtendSchema == On("extensions") /\ S.sd /\ ~S.xroots /\ (S.mutation # "" \/ S.subscription # "") /\ S' = [S EXCEPT !.xroots = TRUE]
 \* ... and to a field definition (sits next to @deprecated in the SDL)
 Tag(tn, f, dn) ==
   /\ On("tags") /\ T(tn).kind \in {"OBJECT", "INTERFACE"} /\ Has(T(tn).fields, f) /\ Has(S.dirs, dn)
@@ -297,6 +303,9 @@ Act(c) ==
   \/ c = "dirarg" /\ \E dn \in Pick(NameSet(S.dirs)) : \E a \in Pick(ArgNames) : \E ref \in Pick(InRefs) :
                        LET ds == Defaults(ref) IN \E k \in Pick(0..Len(ds)) : AddDirArg(dn, a, ref, DefAt(ds, k))
   \/ c = "tag" /\ \E tn \in Pick(NamesOfKind({"OBJECT", "INTERFACE"})) : \E f \in Pick(FieldsOf(tn)) : \E dn \in Pick(NameSet(S.dirs)) : Tag(tn, f, dn)
+  \/ c = "tag.schema" /\ \E dn \in Pick(NameSet(S.dirs)) : TagSchema(dn)
+  \/ c = "extend" /\ \E tn \in Pick(TN) : Extend(tn)
+  \/ c = "extend.schema" /\ ExtendSchema
   \/ c = "tag.type" /\ \E tn \in Pick(TN) : \E dn \in Pick(NameSet(S.dirs)) : TagType(tn, dn)
   \/ c = "tag.enum" /\ \E e \in Pick(NamesOfKind({"ENUM"})) : \E v \in Pick(NameSet(T(e).values)) : \E dn \in Pick(NameSet(S.dirs)) : TagEnumValue(e, v, dn)
   \/ c = "tag.arg" /\ \E tn \in Pick(NamesOfKind({"OBJECT", "INTERFACE"})) : \E f \in Pick(FieldsOf(tn)) : \E a \in Pick(ArgsOf(tn, f)) :
@@ -314,13 +323,13 @@ Act(c) ==
   \/ c = "url" /\ \E tn \in Pick(NamesOfKind({"SCALAR"})) : \E url \in Pick(Urls) : SpecifiedBy(tn, url)
 
 Classes == {"type", "root", "field", "arg", "input", "implement", "narrow", "member", "enumval",
-            "dep.field", "dep.arg", "dep.input", "dep.enum", "dep.dirarg", "dir", "dirarg", "tag", "tag.type", "tag.enum", "tag.arg", "tag.input",
+            "dep.field", "dep.arg", "dep.input", "dep.enum", "dep.dirarg", "dir", "dirarg", "tag", "tag.type", "tag.enum", "tag.arg", "tag.input", "tag.schema", "extend", "extend.schema",
             "desc.type", "desc.field", "desc.arg", "desc.input", "desc.enum", "desc.dir", "desc.dirarg", "desc.schema", "url"}
 \* sampling weights: structure (types, fields, arguments, implementations) is preferred over decoration
 Weighted == {<<"type", i>> : i \in 1..8} \cup {<<"field", i>> : i \in 1..6} \cup {<<"arg", i>> : i \in 1..6}
               \cup {<<"input", i>> : i \in 1..4} \cup {<<"implement", i>> : i \in 1..6} \cup {<<"member", i>> : i \in 1..2}
               \cup {<<"enumval", i>> : i \in 1..2} \cup {<<"dirarg", i>> : i \in 1..2} \cup {<<"tag.type", i>> : i \in 1..3}
-              \cup {<<"dir", i>> : i \in 1..2} \cup {<<c, 1>> : c \in Classes}
+              \cup {<<"dir", i>> : i \in 1..2} \cup {<<"extend", i>> : i \in 1..3} \cup {<<c, 1>> : c \in Classes}
 \* sampling: every weighted copy draws its own random instance, TLC then picks one successor uniformly
 Chosen == IF Sampling THEN Weighted ELSE {<<c, 1>> : c \in Classes}
 
